@@ -359,6 +359,41 @@ def _canon(x: Any) -> Any:
     return "%s:%r" % (type(x).__name__, x)
 
 
+def _format_round_trip(manager: Any, ctl: dict[str, Any], out: dict[str, Any]) -> None:
+    """After a successful build: every module tree written in this run is pushed through BOTH cache formats (serialize ->
+    JSON text -> deserialize, write -> bytes -> read), fixed up against the loaded modules as a cache load does, and must
+    serialize again (in both formats) to what the original serialized to. Independent of which format the run uses and
+    of whether any later run happens to load that tree."""
+    trees = ctl.pop("_rt_trees", None)
+    if not trees or "roundtrip" not in out:
+        return
+    digests = ctl["_rt_digests"]
+    from mypy.cache import ReadBuffer, WriteBuffer
+    from mypy.fixup import NodeFixer
+    from mypy.nodes import MypyFile
+    from mypy.util import json_dumps, json_loads
+
+    n = 0
+    for mid, (tree, want) in sorted(trees.items()):
+        try:
+            copies = {}
+            copies["JSON"] = MypyFile.deserialize(json_loads(json_dumps(tree.serialize())))
+            buf = WriteBuffer()
+            tree.write(buf)
+            copies["binary"] = MypyFile.read(ReadBuffer(buf.getvalue()))
+            for how, t2 in copies.items():
+                NodeFixer(manager.modules, False).visit_symbol_table(t2.names)      # as State.fix_cross_refs does
+                got = digests(t2)
+                n += 1
+                for fmt_ in ("json", "ff"):
+                    if got[fmt_] != want[fmt_]:
+                        out["roundtrip"].append("module tree of %s pushed through the %s format re-serializes differently (%s serialization)"
+                                                % (mid, how, "JSON" if fmt_ == "json" else "binary"))
+        except Exception as e:
+            out.setdefault("roundtrip_skipped", []).append("format round trip of %s: %r" % (mid, e))
+    out["format_round_trips"] = out.get("format_round_trips", 0) + n
+
+
 def _hook_roundtrip(B: Any, cache_dir: Any, ctl: dict[str, Any], out: dict[str, Any]) -> Any:
     """Incremental.tla: Load(m) returns the record the last committed WMeta / WEx wrote. Bound here object by object:
     every CacheMeta / CacheMetaEx the build READS (CacheMeta.read / deserialize, CacheMetaEx.read / deserialize) must
@@ -382,7 +417,7 @@ def _hook_roundtrip(B: Any, cache_dir: Any, ctl: dict[str, Any], out: dict[str, 
     if faulty or ctl.get("parallel"):
         state["tainted"] = True
         with open(side, "w") as f:
-            json.dump({"tainted": True, "meta": {}, "ex": {}, "files": {}}, f)
+            json.dump({"tainted": True, "meta": {}, "ex": {}, "files": {}, "tree": {}}, f)
     if state["tainted"]:
         return lambda ok: None
     out["roundtrip"] = []
@@ -437,6 +472,51 @@ def _hook_roundtrip(B: Any, cache_dir: Any, ctl: dict[str, Any], out: dict[str, 
         return orig_wx(meta_file, meta_ex, manager)
 
     B.write_cache_meta, B.write_cache_meta_ex = wm, wx
+    # ---- the DATA record: a module tree loaded from the cache and fixed up must serialize (in BOTH formats) to what the
+    # tree that was written serialized to -- whatever format is on disk. A field lost or defaulted by one reader / writer
+    # shows even when no diagnostic of this program depends on it.
+    orig_wc, orig_fix = B.write_cache, B.State.fix_cross_refs
+    state.setdefault("tree", {})
+    pending["tree"] = {}
+
+    def tree_digests(tree: Any) -> dict[str, str]:
+        import hashlib
+        from mypy.cache import WriteBuffer
+        dj = hashlib.sha256(json.dumps(tree.serialize(), sort_keys=True, default=repr).encode()).hexdigest()[:20]
+        buf = WriteBuffer()
+        tree.write(buf)
+        return {"json": dj, "ff": hashlib.sha256(buf.getvalue()).hexdigest()[:20]}
+
+    def wc(id: str, path: str, tree: Any, *a: Any, **k: Any) -> Any:
+        manager = k.get("manager") or a[-1]
+        try:
+            _, data_file, _ = B.get_cache_names(id, path, manager.options)
+            pending["tree"][data_file] = tree_digests(tree)
+            # at WRITE time (later passes may still touch the tree): the tree through both formats, see _format_round_trip
+            ctl["_rt_digests"] = tree_digests
+            ctl["_rt_trees"] = {id: (tree, pending["tree"][data_file])}
+            _format_round_trip(manager, ctl, out)
+        except Exception as e:      # never disturb the build
+            out.setdefault("roundtrip_skipped", []).append("write %s: %r" % (id, e))
+        return orig_wc(id, path, tree, *a, **k)
+
+    def fix(self: Any) -> None:
+        orig_fix(self)
+        try:
+            df = self.meta.data_file if self.meta is not None else None
+            want = (pending["tree"].get(df) or state["tree"].get(df)) if df else None
+            if want is not None and self.tree is not None:
+                got = tree_digests(self.tree)
+                out["roundtrip_reads"] += 1
+                for fmt_ in ("json", "ff"):
+                    if got[fmt_] != want[fmt_]:
+                        out["roundtrip"].append("module tree of %s loaded from %s re-serializes differently in the %s format than the tree that was written"
+                                                % (self.id, os.path.basename(df), "JSON" if fmt_ == "json" else "binary"))
+        except Exception as e:
+            out.setdefault("roundtrip_skipped", []).append("read %s: %r" % (getattr(self, "id", "?"), e))
+
+    B.write_cache = wc
+    B.State.fix_cross_refs = fix
 
     def unhook(ok: bool) -> None:
         if not origs:
@@ -445,14 +525,15 @@ def _hook_roundtrip(B: Any, cache_dir: Any, ctl: dict[str, Any], out: dict[str, 
             setattr(cls, name, o)
         origs.clear()
         B.write_cache_meta, B.write_cache_meta_ex = orig_wm, orig_wx
+        B.write_cache, B.State.fix_cross_refs = orig_wc, orig_fix
         if ok:
-            for k in ("meta", "ex", "files"):
+            for k in ("meta", "ex", "files", "tree"):
                 state[k].update(pending[k])
             with open(side, "w") as f:
                 json.dump(state, f)
         else:
             with open(side, "w") as f:
-                json.dump({"tainted": True, "meta": {}, "ex": {}, "files": {}}, f)
+                json.dump({"tainted": True, "meta": {}, "ex": {}, "files": {}, "tree": {}}, f)
 
     return unhook
 
